@@ -30,14 +30,16 @@ ASSUMPTIONS = [
     'numerical rank: singular values above hi=1e4*lo count, below lo=1e3*eps*kappa*sigma_1 are zero, a singular value inside (lo,hi] makes the atom undecided (counted, never a violation); kappa is the independent conditioning estimate of the configuration (C01 table)',
     'generic point statement only: the rank is decided at the listed atoms (see atom_list: one deterministic chirp vector, G drawn vectors with |theta_i| in [0.4,1.2], G normal draws); nothing is claimed on the measure-zero set where a chart degenerates',
     'so-exp / so-cayley Stiefel charts parametrise "the first r columns of SO(d)/SU(d)": dimension min(2dr-r^2, d^2-1) in the complex case (documented construction)',
-    'phase-free complex Euler chart parametrises the Stiefel manifold modulo column phases: dimension 2dr-r^2-r; its composition with the Kraus->Choi map has no manifold of its own and is not checked',
+    'the phase-free complex Euler chart and the complex choleskyL chart (documented "minimum parameters") parametrise the Stiefel manifold modulo column phases: dimension 2dr-r^2-r (= their parameter count, as the property states for minimal charts); their composition with the Kraus->Choi map has no manifold of its own and is not checked',
+    'a supposed-zero singular value that sticks out of the rounding noise by a factor > 1e2 (and > 1e2*eps*sigma_1) makes the atom undecided: it is a true direction near a coordinate singularity, not a zero',
+    'SeparableDensityMatrix is not covered (no closed-form dimension of the secant variety in the property statement); QuantumChannel modules are bounded by the size of the underlying Stiefel chart (<= 6 quick, <= 9 thorough)',
 ]
 
 EPS = np.finfo(np.float64).eps
 C = 1e3          # safety constant of DESIGN 3.2
 GAP = 1e4        # dead band hi/lo (DESIGN C02: gap >= 1e4)
-KAPPA_CAP = 4e5  # hi = C*eps*kappa*GAP must stay below 1e-3*sigma_1: kappa <= 1e-3/(1e3*2.2e-16*1e4) = 4.5e5
-FD_KAPPA_CAP = 1e4  # finite differences resolve ~1e-7*sigma_1 only: atoms with an (independently) ill-conditioned frame are skipped
+KAPPA_CAP = 4e5  # hi = C*eps*kappa*GAP must stay below 1e-3*sigma_1: kappa <= 1e-3/(1e3*2.2e-16*1e4) = 4.5e5. For the orthonormalising maps
+                 # kappa = cond(frame)^2, so the spread of the non-zero singular values of J is <= cond ~ 6e2 << 1/(1e2*tau) ~ 1e5 (finite differences)
 FD_H = 1e-4      # finite-difference step (theta is O(1))
 FD_GUARD = 1e2   # finite differences: non-zero singular values must exceed FD_GUARD * error bound
 
@@ -242,8 +244,8 @@ def build_cases(tier, seed):
                 continue  # the underlying Stiefel(cr*dim_out, dim_in) chart is kept inside the dimension bound of the functional maps (+1)
             if c['return_kind'] == 'choi' and ((c['method'] == 'euler' and not c['phase']) or c['method'] == 'choleskyL'):
                 continue  # Stiefel modulo column phases does not descend to Choi operators: no manifold to compare with
-        if tier == 'quick' and c['batch'] is not None and (c['dim'] > 2 or (c['cls'] == 'QuantumChannel' and cr * c['dim_out'] > 4)):
-            continue  # quick: batch 3 at the smallest dimensions only (thorough: everywhere)
+        if tier == 'quick' and c['batch'] is not None and c['cls'] == 'QuantumChannel' and cr * c['dim_out'] > 4:
+            continue  # quick: batch 3 for the small channel charts only (thorough: everywhere)
         cases.append(dict(c))
     cases.sort(key=lambda c: (c['dim'], c.get('rank') or 0, c['kind']))
     G = 2 if tier == 'quick' else 6
@@ -294,7 +296,7 @@ def run_func(case, out, env):
     ranks_seen = []
     for label, th in atoms:
         kap = float(spec.kappa(th[None, :], c)[0])
-        if not np.isfinite(kap) or kap > (KAPPA_CAP if c['backend'] == 'torch' else FD_KAPPA_CAP):
+        if not np.isfinite(kap) or kap > KAPPA_CAP:
             out.count('skipped_ill_conditioned')
             continue
         out.state()
